@@ -1494,9 +1494,15 @@ impl<'a, 'b> InternalDelphiLogicalLineParser<'a, 'b> {
         }
 
         let paren_level = self.paren_level;
-        while !(matches!(self.get_token_type::<-1>(), Some(TT::Op(OK::RParen)))
+        // The opening parenthesis is always consumed: when the list directly follows a `)`
+        // the ending condition below already holds on entry, and callers would otherwise
+        // see the same `(` again, forever.
+        let mut entered = false;
+        while !(entered
+            && matches!(self.get_token_type::<-1>(), Some(TT::Op(OK::RParen)))
             && paren_level >= self.paren_level)
         {
+            entered = true;
             match self.get_current_token_type() {
                 Some(TT::Op(OK::Semicolon | OK::LParen)) => fix_next_eq(self),
                 None => break,
